@@ -48,6 +48,8 @@ def _jsonable(x, depth=0):
     return {str(k): _jsonable(v, depth + 1) for k, v in x.items()}
   if isinstance(x, (list, tuple, set, frozenset)):
     return [_jsonable(v, depth + 1) for v in list(x)]
+  if hasattr(x, 'to_json'):
+    return _jsonable(x.to_json(), depth + 1)
   return str(x)[:500]
 
 
@@ -175,11 +177,17 @@ class Check:
                   suppress_health_check=list(HealthCheck))
     holder = {}
 
+    shrink_budget = float(os.environ.get('VERIF_SHRINK_S', '45' if self.quick else '240'))
+
     def wrapped(case):
+      if 't_fail' in holder and time.time() - holder['t_fail'] > shrink_budget and repr(case) != holder.get('repr'):
+        return   # shrink budget used up: further candidates are not explored (the best failing case is kept)
       try:
         test(case)
       except (Violation, AssertionError, mj.MjError) as e:
+        holder.setdefault('t_fail', time.time())
         holder['case'] = case
+        holder['repr'] = repr(case)
         holder['exc'] = e
         raise
 
